@@ -164,10 +164,14 @@ def aggregateStatus : List TStatus → TStatus
 def rootStatus (ls : List (Bool × Launch)) (calls : Nat) : TStatus :=
   aggregateStatus (ls.map (fun l => leafStatus l.1 l.2) ++ List.replicate calls .ACTIVE)
 
-/-- WORKFLOW_ACTIVE_LOOP: leave with success when the root status is ACTIVE; every other way out
-    (UNDEPLOYABLE notified, root state ERROR notified, deploy_timeout) returns an error. -/
-def deployBody (ls : List (Bool × Launch)) (calls : Nat) : BodyRes :=
-  if rootStatus ls calls = .ACTIVE then .ok else .error
+/-- WORKFLOW_ACTIVE_LOOP: leave with success when the root status is seen ACTIVE; every other way out
+    (UNDEPLOYABLE notified, root state ERROR notified, deploy_timeout) returns an error.
+    `lost`: status changes reach the loop through a NON-BLOCKING send on an unbuffered channel
+    (ParentAdapter.updateStatus: `select { case ch <- s: default: }`); a notification sent while the loop is not at its
+    receive (between `wf.GetStatus()` and the `select`, or while it handles the previous one) is dropped, and the
+    time-out branch does not look at the status again: the deployment times out although the workflow is ACTIVE. -/
+def deployBody (ls : List (Bool × Launch)) (calls : Nat) (lost : Bool) : BodyRes :=
+  if rootStatus ls calls = .ACTIVE ∧ lost = false then .ok else .error
 
 /-! ### the API: ControlEnvironment -/
 
@@ -224,13 +228,14 @@ def afterCommand (tasks : List Task) (outs : List Outcome) : List Task :=
 structure Workflow where
   calls : Nat
   tasks : List (Bool × Launch)      -- (critical, launch outcome)
+  notifyLost : Bool := false        -- the notification "root is ACTIVE" is dropped (see `deployBody`)
   deriving Repr
 
 /-- `envs.CreateEnvironment` with no hooks: DEPLOY, then CONFIGURE; on failure GO_ERROR + teardown (the
     environment is gone). Returns the observation and, on success, the world to go on with. -/
 def createEnvironment (cfg : Cfg) (wf : Workflow) (outs : List Outcome) : Obs × Option (Env × List Task) :=
   let env0 : Env := {}
-  match deployBody wf.tasks wf.calls with
+  match deployBody wf.tasks wf.calls wf.notifyLost with
   | .ok =>
     let d := tryTransition env0 [] .DEPLOY true false
     let tasks : List Task := wf.tasks.map (fun t => { critical := t.1, active := t.2 = .ok })
@@ -242,7 +247,7 @@ def createEnvironment (cfg : Cfg) (wf : Workflow) (outs : List Outcome) : Obs ×
       let c := tryTransition d.1 [] .CONFIGURE true false
       ({ ev := none, rpc := .ok, state := some c.1.st, after := some c.1.st, cmd := cmd }, some (c.1, afterCommand tasks outs))
   | _ => ({ ev := none, rpc := .err, state := none, after := none, cmd := [],
-            runningAcked := !wf.tasks.isEmpty && wf.tasks.all (fun t => t.2 = .ok || t.2 = .okEarly) }, none)
+            runningAcked := (!wf.tasks.isEmpty || wf.calls != 0) && wf.tasks.all (fun t => t.2 = .ok || t.2 = .okEarly) }, none)
 
 def bodyFor (cfg : Cfg) (e : Ev) (ts : List Target) : BodyRes :=
   match e with
